@@ -105,6 +105,13 @@ macro_rules! lc_step { ($p:ident, $disp:ident) => {{
             // insertion or enable(): on failure the loop treats the source as not registered
             if v_ok!($disp.register(&mut $p.poll, &mut $p.set, &mut TokenFactory::new($p.tok))) { $p.reg = true; }
             assert!(fail != $p.reg, "C15.lc.register_result_matches_source");
+        } else {
+            // round 9 (seed C14-5): enable() on a source that IS enabled -- the public API allows it; an fd-backed source
+            // then fails (EEXIST) and a source without an fd of its own succeeds. Either way the earlier registration stands,
+            // so the source stays listed exactly once (the redundant call is the user's, not a protocol error of the loop).
+            let ok = v_ok!($disp.register(&mut $p.poll, &mut $p.set, &mut TokenFactory::new($p.tok)));
+            assert!(fail != ok, "C15.lc.register_result_matches_source");
+            $p.d.borrow_mut().source.proto_error = false;
         }
     } else if op == 1 {
         if $p.reg { let _ok = v_ok!($disp.reregister(&mut $p.poll, &mut $p.set, &mut TokenFactory::new($p.tok))); }
